@@ -61,6 +61,22 @@ def header_template(v):
     raise AnalysisError("_to_ovf: no f-string header starting with '# OOMMF OVF' found")
 
 
+def label_decoder(repo, r):
+    """the function that decodes one value label: a closure of the reader, or a module-level helper of io/ovf.py that the
+    reader calls with one argument (a closure that was moved out)"""
+    nested = [f for q, f in repo.funcs.items() if f.parent is not None and f.parent.qual == r.f.qual]
+    for f in nested:
+        if f.node.name == "convert":
+            return f
+    if nested:
+        return nested[0]
+    called = {n.func.id for n in ast.walk(r.f.node) if isinstance(n, ast.Call) and isinstance(n.func, ast.Name) and len(n.args) == 1}
+    cands = [f for q, f in repo.funcs.items() if f.parent is None and f.cls is None and f.module is r.f.module
+             and f.node.name in called and len(f.node.args.args) == 1
+             and any(isinstance(n, ast.Constant) and n.value == "_" for n in ast.walk(f.node))]
+    return cands[0] if cands else None
+
+
 def reader_header_name(r):
     """name of the dictionary the reader fills with header entries (the one subscripted with 'valuedim')"""
     for n in ast.walk(r.f.node):
@@ -307,6 +323,15 @@ def _dict_literal(v, keys):
             except Exception:
                 continue
             if set(val) == set(keys):
+                return st, st.targets[0].id, val
+    # a table that was given a name at module level (`_BINARY_FORMATS = {...}`)
+    for st in v.f.module.tree.body:
+        if isinstance(st, ast.Assign) and len(st.targets) == 1 and isinstance(st.targets[0], ast.Name) and isinstance(st.value, ast.Dict):
+            try:
+                val = ast.literal_eval(_with_named_constants(v, st.value))
+            except Exception:
+                continue
+            if set(val) == set(keys) and any(isinstance(n, ast.Name) and n.id == st.targets[0].id for n in ast.walk(v.f.node)):
                 return st, st.targets[0].id, val
     return None
 
@@ -575,20 +600,25 @@ def d6_codecs(chk, repo, v, r):
             sent = words.pop()
     chk.ob("io.ovf._to_ovf::unit-sentinel", sent is not None, "C09.D6",
            "a field without unit needs a placeholder word in valueunits (one word per component)", v.f)
+    # decided on the values that reach the `unit` argument of the returned field (gated reaching definitions: however the
+    # decision tree is written): None is among them, and a word read from the file arrives only when it is not the placeholder
+    from ..lib import gated_expr
     ok = False
-    for ret, a in cm.returned_news(r):
-        mem = phi_members(r.ctx, a.get("unit")) if a.get("unit") is not None else []
-        has_none = any(is_const(r.ctx, m, None) for m in mem)
-        words = [m for m in mem if not is_const(r.ctx, m, None)]
-        for st in r.stmts():
-            if isinstance(st, ast.If) and sent is not None:
-                ct = r.ev.term(st.test, at=st)
-                hd = r.ctx.head_of(ct)
-                if hd == ("cmp", "eq") and any(is_str(r.ctx, x, sent) for x in r.ctx.args_of(ct)) and \
-                        any(any(r.eq(x, w) for w in words) for x in r.ctx.args_of(ct)) and \
-                        any(isinstance(s2, ast.Assign) and isinstance(s2.value, ast.Constant) and s2.value.value is None
-                            for s2 in st.body):
-                    ok = has_none
+    for ret_stmt in r.returns():
+        call = ret_stmt.value
+        if not isinstance(call, ast.Call):
+            continue
+        kwn = [k.value for k in call.keywords if k.arg == "unit"]
+        if not kwn or sent is None:
+            continue
+        alts = gated_expr(r, kwn[0], ret_stmt)
+        if not alts:
+            continue
+        none_alt = [c_ for c_, v_, s_ in alts if is_const(r.ctx, v_, None)]
+        words = [(c_, v_) for c_, v_, s_ in alts if not is_const(r.ctx, v_, None)]
+        if none_alt and words:
+            ok = all(cond_implies(r, c_, r.ev._cmpn("ne", v_, r.ctx.mk(("str", sent)))) for c_, v_ in words) and \
+                all(any(hd == ("str", "valueunits") for hd in r.ctx.heads_in(v_)) for c_, v_ in words)
     chk.ob("io.ovf::unit::sentinel-decoded", ok, "C09.D6",
            f"the writer stores {sent!r} for unit=None; the reader must map that word back to None", r.f)
     # labels
@@ -601,9 +631,8 @@ def d6_codecs(chk, repo, v, r):
                         prefix = n.values[0].value
     chk.ob("io.ovf._to_ovf::label-prefix", prefix is not None and prefix.endswith("_") and prefix.count("_") == 1, "C09.D6",
            f"labels are written with prefix {prefix!r}", v.f)
-    convs = [f for q, f in repo.funcs.items() if q.startswith(OVF + "_from_ovf.") and f.parent is not None]
-    chk.require(convs, "_from_ovf: label decoder (nested function) vanished")
-    conv = convs[0]
+    conv = label_decoder(repo, r)
+    chk.require(conv is not None, "_from_ovf: label decoder (the function that turns a value label into a component name) vanished")
     okc = False
     det = "no decoding of the prefix found"
     for n in ast.walk(conv.node):
@@ -870,48 +899,62 @@ def d9_details(chk, repo, v, r):
            "a header line '# key: value' must be stored as key = text before the first colon (without the leading #), value = "
            "text after it, both stripped, for lines that contain a colon", r.f)
     # labels
-    conv = None
-    for fi in repo.funcs.values():
-        if fi.parent is not None and fi.parent.qual == r.f.qual and fi.node.name == "convert":
-            conv = fi
-    for fi in repo.funcs.values():
-        if conv is None and fi.parent is not None and fi.parent.qual == r.f.qual:
-            conv = fi
+    conv = label_decoder(repo, r)
     if conv is not None:
         w = FV(repo, conv.qual, ctx=r.ctx) if False else FV(repo, conv.qual)
         pname = conv.node.args.args[0].arg
         first = [s_ for s_ in w.stmts() if isinstance(s_, ast.Assign)]
         okl = bool(first) and w.eq(w.term(first[0].value, at=first[0]),
                                    w.spec(f"{pname}.split('_', 1)[1] if '_' in {pname} else {pname}"))
+        if not okl and first:
+            # the same decision written as a statement: `if '_' in p: p = p.split('_', 1)[1]`
+            okl = w.eq(w.term(first[0].value, at=first[0]), w.spec(f"{pname}.split('_', 1)[1]")) and \
+                isinstance(first[0].targets[0], ast.Name) and first[0].targets[0].id == pname and \
+                reached_iff(w, first[0], w.spec(f"'_' in {pname}"))
         chk.ob("io.ovf._from_ovf.convert::prefix-only-when-present", okl, "C09.D9",
                f"`{w.src(first[0]) if first else '?'}`: the part before the first underscore is dropped exactly when there is an "
                "underscore; other labels are kept whole", w.f, first[0] if first else None)
-    # labels unique or none; units
-    resets = []
-    for st in r.stmts():
-        if isinstance(st, ast.Assign) and isinstance(st.targets[0], ast.Name) and isinstance(st.value, ast.Constant) and st.value.value is None:
-            resets.append(st)
-    lab = [st for st in resets if isinstance(r.cfg.parent.get(id(st), (None,))[0], ast.If)
-           and any(hd == ("str", "valuelabels") for hd in r.ctx.heads_in(path_term(r, st)))]
-    oklab = False
-    for st in lab:
-        L = local_term(r, st.targets[0].id, r.cfg.parent[id(st)][0])
-        oklab = reached_iff(r, st, r.spec("len(L) != len(set(L))", env={"L": L}))
+    # labels unique or none; units - decided on the gated values that reach the constructor (however the decision trees are
+    # written): a label list arrives only when its entries are distinct, a unit word only when the list of unit words is
+    # non-empty and all its entries agree
+    from ..lib import gated_expr
+
+    def kw_alts(kwname):
+        for ret_stmt in r.returns():
+            call = ret_stmt.value
+            if isinstance(call, ast.Call):
+                kwn = [k.value for k in call.keywords if k.arg == kwname]
+                if kwn:
+                    return gated_expr(r, kwn[0], ret_stmt) or [], ret_stmt
+        return [], None
+    alts, ret_stmt = kw_alts("vdims")
+    lists = [(c_, v_) for c_, v_, s_ in alts if not is_const(r.ctx, v_, None)]
+    oklab = any(is_const(r.ctx, v_, None) for c_, v_, s_ in alts) and bool(lists) and \
+        all(cond_implies(r, c_, r.spec("len(L) == len(set(L))", env={"L": v_})) for c_, v_ in lists)
     chk.ob("io.ovf._from_ovf::duplicate-labels-dropped", oklab, "C09.D9",
-           "labels must be discarded exactly when they are not unique", r.f, lab[0] if lab else None)
-    ul = find_assign(r, lambda t_, s_: (decode_call(r.ctx, t_) or ("",))[0] == ".split" and
-                     any(hd == ("str", "valueunits") for hd in r.ctx.heads_in(t_)))
-    if ul is not None:
-        U = ul[2]
+           "labels that are not unique must be discarded (vdims=None): the decoded list may reach the constructor only when "
+           "len(labels) == len(set(labels))", r.f, ret_stmt)
+    alts, ret_stmt = kw_alts("unit")
+    words = [(c_, v_) for c_, v_, s_ in alts if not is_const(r.ctx, v_, None)]
+    U = None
+    oku = bool(words)
+    for c_, w_ in words:
+        hw = r.ctx.head_of(w_)
+        if not (hw and hw[0] == "sub" and is_const(r.ctx, r.ctx.args_of(w_)[1], 0)):
+            oku = False
+            break
+        U = r.ctx.args_of(w_)[0]
         nU = r.spec("len(U)", env={"U": U})
         nS = r.spec("len(set(U))", env={"U": U})
-        takes = [st for st in r.stmts() if isinstance(st, ast.Assign) and isinstance(st.targets[0], ast.Name)
-                 and r.eq(r.term(st.value, at=st), r.spec("U[0]", env={"U": U}))]
-        oku = len(takes) == 1 and reached_iff(r, takes[0], r.spec("len(U) != 0 and len(set(U)) == 1", env={"U": U}), [nU, nS])
-        chk.ob("io.ovf._from_ovf::unit-is-the-single-repeated-unit", oku, "C09.D9",
-               f"the unit is taken from the file under {r.show(path_term(r, takes[0]))[:200] if takes else '?'}; expected: the unit "
-               "list is non-empty and all its entries agree (then its first entry)", r.f, takes[0] if takes else None)
-    chk.ob("io.ovf._from_ovf::unit-list-found", ul is not None, "C09.D9", "header['valueunits'].split() not found", r.f)
+        # len(set(U)) <= len(U), and one is 0 exactly when the other is
+        pre = (lambda vals: vals[1] <= vals[0] and (vals[0] == 0) == (vals[1] == 0))
+        oku = oku and cond_implies(r, c_, r.spec("len(U) != 0 and len(set(U)) == 1", env={"U": U}), [nU, nS], pre=pre)
+    chk.ob("io.ovf._from_ovf::unit-is-the-single-repeated-unit", oku, "C09.D9",
+           "a unit word may reach the constructor only when the list of unit words is non-empty and all its entries agree "
+           "(then it is the first entry)", r.f, ret_stmt)
+    okf = U is not None and any(hd == ("str", "valueunits") for hd in r.ctx.heads_in(U)) and \
+        any(hd[0] == "call" and hd[1] == ".split" for hd in r.ctx.heads_in(U))
+    chk.ob("io.ovf._from_ovf::unit-list-found", okf, "C09.D9", "the unit words must be header['valueunits'].split()", r.f)
     # ---- dispatch: each extension set selects its own format (decided over the finite set of extension strings)
     from ..lib import reach_values, subject_constants, _OTHER
     own_ext = {"ovf": {".omf", ".ovf", ".ohf"}, "vtk": {".vtk"}, "hdf5": {".hdf5", ".h5"}}
